@@ -17,6 +17,7 @@ import (
 	proto "github.com/kubewharf/kubebrain-client/api/v2rpc"
 
 	"github.com/kubewharf/kubebrain/pkg/backend"
+	"github.com/kubewharf/kubebrain/pkg/backend/election"
 	"github.com/kubewharf/kubebrain/pkg/server/service"
 	"github.com/kubewharf/kubebrain/pkg/server/service/leader"
 	"github.com/kubewharf/kubebrain/pkg/storage"
@@ -84,6 +85,9 @@ func genC15(t *rapid.T) interface{} {
 	}
 	if !c.Reopen && DrawBool(t, 30, "standby") {
 		c.Standby = true
+		if c.TSOFault == 0 && DrawBool(t, 50, "standbyFault") {
+			c.TSOFault = rapid.IntRange(1, 3).Draw(t, "standbyFaultAt")
+		}
 	}
 	for i := 0; i < 5; i++ {
 		op := genWOp(t, len(c.Keys))
@@ -96,11 +100,38 @@ func genC15(t *rapid.T) interface{} {
 }
 
 // initLikeLeader does what leader.go does when a node starts leading: read the revision from the lock description
-func initLikeLeader(b backend.Backend, identity string) error {
+// with prev != nil the term is the second one on this lock: a previous holder (prev, a bare resource lock of a node that
+// is gone by now) created the record, standby() runs while that node still holds it (a standby that has been up for longer
+// than the leader it will replace polls the lock from then on), the previous holder lets go and b acquires through
+// Get + Update as the elector does
+func initLikeLeader(b backend.Backend, identity string, prev resourcelock.Interface, standby func()) error {
 	rl := b.GetResourceLock()
 	now := metav1.NewTime(time.Now())
-	if err := rl.Create(resourcelock.LeaderElectionRecord{HolderIdentity: identity, LeaseDurationSeconds: 8, AcquireTime: now, RenewTime: now}); err != nil {
-		return err
+	rec := resourcelock.LeaderElectionRecord{HolderIdentity: identity, LeaseDurationSeconds: 8, AcquireTime: now, RenewTime: now}
+	if prev == nil {
+		if err := rl.Create(rec); err != nil {
+			return err
+		}
+	} else {
+		prec := rec
+		prec.HolderIdentity = prev.Identity()
+		if err := prev.Create(prec); err != nil {
+			return err
+		}
+		standby()
+		if _, err := prev.Get(); err != nil {
+			return err
+		}
+		prec.HolderIdentity, prec.LeaseDurationSeconds = "", 1
+		if err := prev.Update(prec); err != nil {
+			return err
+		}
+		if _, err := rl.Get(); err != nil {
+			return err
+		}
+		if err := rl.Update(rec); err != nil {
+			return err
+		}
 	}
 	if _, err := rl.Get(); err != nil {
 		return err
@@ -154,12 +185,6 @@ func runC15(ci interface{}, st *CaseStats) error {
 		return Inconclusivef("engine: %v", err)
 	}
 	oldB := backend.NewBackend(eng.KV, backend.Config{Prefix: Prefix, Identity: fmt.Sprintf("old-%d", c15Seq), WatchCacheSize: 256}, NopMetrics)
-	if err := initLikeLeader(oldB, fmt.Sprintf("old-%d", c15Seq)); err != nil {
-		return Inconclusivef("old leader init: %v", err)
-	}
-	env := &SeqEnv{Eng: eng, KV: eng.KV, B: oldB, M: NewModel(), Keys: keys, Ctx: context.Background()}
-	env.Init = oldB.GetCurrentRevision()
-	env.LastRev = env.Init
 	// the future leader, as a follower of the old one
 	var takeoverDone, tsoFaultFired, released, tsoAfterRelease int32
 	// the new node's view of the store: optionally with one failing timestamp request
@@ -191,6 +216,19 @@ func runC15(ci interface{}, st *CaseStats) error {
 		newB = backend.NewBackend(newKV(eng.KV), backend.Config{Prefix: Prefix, Identity: fmt.Sprintf("new-%d", c15Seq), WatchCacheSize: 256}, NopMetrics)
 		st.Label("new-leader-served-follower-reads-before")
 	}
+	var prev resourcelock.Interface
+	var standbyPoll func()
+	if c.Standby && newB != nil {
+		// the standby was already polling the lock before the old leader's term began
+		prev = election.NewResourceLockManager(election.Config{Prefix: Prefix, Identity: fmt.Sprintf("prev-%d", c15Seq), Timeout: 5 * time.Second}, eng.KV).GetResourceLock()
+		standbyPoll = func() { _, _ = newB.GetResourceLock().Get() }
+	}
+	if err := initLikeLeader(oldB, fmt.Sprintf("old-%d", c15Seq), prev, standbyPoll); err != nil {
+		return Inconclusivef("old leader init: %v", err)
+	}
+	env := &SeqEnv{Eng: eng, KV: eng.KV, B: oldB, M: NewModel(), Keys: keys, Ctx: context.Background()}
+	env.Init = oldB.GetCurrentRevision()
+	env.LastRev = env.Init
 	syncAt := map[int]bool{}
 	for _, p := range c.FollowerSyncs {
 		syncAt[p] = true
